@@ -12,6 +12,13 @@ def main():
     common.build_repo()
     print("building kernels (release + dev) ...", flush=True)
     common.build_kernels(dev=True)
+    print("building kernels for Miri (thorough tier of C04/C05) ...", flush=True)
+    try:
+        import kern
+        r = kern.run_miri("C04", [("I", 7, 2)], timeout=1200)
+        print("  miri ready: %s" % ("ok" if r["ran"] == 1 else r))
+    except Exception as e:  # Miri is an extra detector; its absence must not break setup
+        print("  miri unavailable: %s" % e)
     print("building harness ...", flush=True)
     common.build_harness()
     try:
